@@ -37,6 +37,25 @@ static void mgcd_case(void) {
   else if (shape < 15) lp_polynomial_assign(b, a);                                                                                 /* equal */
   lp_polynomial_t* P = lp_polynomial_new(hp_ctx[0]); lp_polynomial_t* Q = lp_polynomial_new(hp_ctx[0]);
   lp_polynomial_mul(P, g0, a); lp_polynomial_mul(Q, g0, b);
+  if (shape >= 15 && shape < 30 && nv >= 2) {
+    /* projection trap: P univariate in the top variable, Q = u*b + x0*r shares the factor u with P only after x0 := 0 */
+    lp_integer_t one; lp_integer_construct_from_int(lp_Z, &one, 1);
+    lp_polynomial_t* u = lp_polynomial_alloc(); lp_polynomial_construct_simple(u, hp_ctx[0], &one, hp_x[nv - 1], 1 + rnd(2));
+    { lp_integer_t c; lp_integer_construct_from_int(lp_Z, &c, rnd_in(-3, 3)); lp_polynomial_t* k = lp_polynomial_alloc();
+      lp_polynomial_construct_simple(k, hp_ctx[0], &c, hp_x[nv - 1], 0); lp_polynomial_add(u, u, k); lp_polynomial_delete(k); lp_integer_destruct(&c); }
+    lp_polynomial_t* ua = lp_polynomial_alloc(); lp_polynomial_construct_simple(ua, hp_ctx[0], &one, hp_x[nv - 1], 1);
+    { lp_integer_t c; lp_integer_construct_from_int(lp_Z, &c, rnd_in(-4, 4)); lp_polynomial_t* k = lp_polynomial_alloc();
+      lp_polynomial_construct_simple(k, hp_ctx[0], &c, hp_x[nv - 1], 0); lp_polynomial_add(ua, ua, k); lp_polynomial_delete(k); lp_integer_destruct(&c); }
+    lp_polynomial_t* y = lp_polynomial_alloc(); lp_polynomial_construct_simple(y, hp_ctx[0], &one, hp_x[0], 1);
+    lp_polynomial_t* r = hp_random_poly(0, nv, 1, 2);
+    if (lp_polynomial_is_zero(r)) lp_polynomial_assign(r, y);
+    lp_polynomial_mul(P, u, ua);                                 /* P = u * (x + c) : univariate */
+    lp_polynomial_mul(Q, u, b); lp_polynomial_mul(r, r, y); lp_polynomial_add(Q, Q, r);   /* Q = u*b + x0*r */
+    lp_polynomial_delete(g0); g0 = hp_dest(0, 1);
+    { lp_polynomial_t* t = lp_polynomial_alloc(); lp_polynomial_construct_simple(t, hp_ctx[0], &one, hp_x[0], 0); lp_polynomial_assign(g0, t); lp_polynomial_delete(t); }
+    if (chance(50)) lp_polynomial_swap(P, Q);
+    lp_polynomial_delete(u); lp_polynomial_delete(ua); lp_polynomial_delete(y); lp_polynomial_delete(r); lp_integer_destruct(&one);
+  }
   unsigned op = rnd(10);
   if (op < 6) {
     for (int flags = 0; flags <= 2; ++flags) {
